@@ -76,6 +76,11 @@ def catchAs {α} (x : Outcome α) (p : ExcKind → Bool) : Outcome α :=
   | escape k => if p k then dataError else escape k
   | o => o
 
+/-- `[f x for x in xs]` where `f` may raise: the first failure wins -/
+def mapO {α β} (f : α → Outcome β) : List α → Outcome (List β)
+  | [] => ok []
+  | x :: xs => bind (f x) (fun y => bind (mapO f xs) (fun ys => ok (y :: ys)))
+
 end Outcome
 
 /-- The EBCDIC space / 1014 pad byte. -/
